@@ -302,6 +302,9 @@ func (p *Program) RunObligation(ob *Obligation, tier string) *ObResult {
 		return r
 	}
 	maxPaths := ob.MaxPaths
+	if v := ob.Param("maxpaths", 0); v > 0 {
+		maxPaths = v // (params / thorough_params may carry the path budget of a tier)
+	}
 	if maxPaths == 0 {
 		maxPaths = 20000
 	}
